@@ -5,7 +5,7 @@
 (* identity for two's-complement samples) | "near".                        *)
 (* Classification keys are computed here from logged facts only.           *)
 (***************************************************************************)
-EXTENDS Contract, Json
+EXTENDS Contract, TileGrid, Json
 CONSTANT TraceFile
 Tr == ndJsonDeserialize(TraceFile)
 VARIABLES l, mode, cur, nacc
@@ -15,7 +15,8 @@ E == Tr[l]
 \* discriminators: predicates over the configuration that name a root-caused defect class
 Disc(prop, cfg) ==
   CASE prop = "C04" /\ cfg.signed /\ cfg.p < 8 -> "signed-P<8"
-    [] prop = "C19" -> "tiled"
+    [] prop = "C19" -> IF OriginIndependent(cfg.w, cfg.h, cfg.tw, cfg.th, cfg.levels, cfg.cbw, cfg.cbh)
+                       THEN "origin-independent" ELSE "tile-origin-ignored"
     [] OTHER -> "-"
 
 EncReason == IF E.err # "" THEN "encode error" ELSE "ok"
